@@ -33,7 +33,14 @@
      reloads, a unit started by a reload starts empty; model = RibModel under
      the unit's filter, spec = the ideal RIB by wire identity under the same
      filter (classes K2 / K3 as in eng_pipe). In a case without them the `q:`
-     tokens are eng_pipe's, as before (C10_no_filter_is_pipeline_model). *)
+     tokens are eng_pipe's, as before (C10_no_filter_is_pipeline_model).
+   - Generated vRIBs (E2eModel.es_vribs, vrib_query_code / vrib_query_spec): `K n` = the operator asks for a shorthand
+     RIB with n generated vRIBs (among the leading F / K ops: the start-up configuration; later: effective with the
+     next H / L); `N i af p` = the prefix query asked of vRIB i (GET /prefixes/<i>/<prefix>): `v:-` where no vRIB
+     answers, `v:<entries>` = what the physical RIB holds for the prefix unless a filter of the chain rejects it (spec),
+     `v:STALL` where the code never answers (model: the physical RIB holds a record of the prefix -
+     reprocess_rib_value is todo!(): class KV, known finding C13-vrib-query-todo). The engine ends the case at a
+     request that is never answered: every later token of the model is `x` (class KV). *)
 open Conv
 open BmpModel
 open PipeModel
@@ -49,6 +56,8 @@ type item =
   | Msg of int * string list (* a BMP message of router k: as Pass (prints -), and the unit counters see it *)
   | Script of int           (* W s [1] *)
   | Unit2 of int            (* Y y *)
+  | Vribs of int            (* K n *)
+  | QueryV of string list   (* N i af p: the query asked of generated vRIB i *)
   | Conn of int
   | Metrics of int          (* M k: m-token and n-token *)
   | Disc of int             (* X k of a connected router *)
@@ -116,8 +125,16 @@ let answer tag ids (hist : RibModel.update list) (rb : RibModel.rib) (sw : sworl
 let run_case (line : string) : string =
   let ops = Stdlib.List.map words (split_on ';' line) in
   let ops = Stdlib.List.filter (fun o -> o <> []) ops in
-  let scripted = Stdlib.List.exists (fun o -> Stdlib.List.mem (Stdlib.List.hd o) ["F"; "W"; "Y"; "P"]) ops in
+  let scripted = Stdlib.List.exists (fun o -> Stdlib.List.mem (Stdlib.List.hd o) ["F"; "W"; "Y"; "P"; "K"; "N"]) ops in
   let startup = match ops with ("F" :: s :: _) :: _ -> int_of_string s | _ -> 0 in
+  (* the leading F / K ops describe the start-up configuration (F only as the first op) *)
+  let max_vribs = 3 in
+  let startup_vribs =
+    let rec go i n = function
+      | ("F" :: _) :: tl when i = 0 -> go 1 n tl
+      | ("K" :: k :: _) :: tl -> go (i + 1) (min max_vribs (int_of_string k)) tl
+      | _ -> n in
+    go 0 0 ops in
   (* pass 1: what the engine does with each op, and the case the pipeline model sees *)
   let live = ref [] in
   let pipe_ops = ref [] in
@@ -129,6 +146,8 @@ let run_case (line : string) : string =
       | "O" | "A" | "Z" | "F" -> Skip
       | "W" -> Script (i 1)
       | "Y" -> Unit2 (i 1)
+      | "K" -> Vribs (min max_vribs (i 1))
+      | "N" -> QueryV toks
       | "P" -> Query2 toks
       | "L" | "H" -> Reload (match toks with [_; v] -> Some (int_of_string v) | _ -> None)
       | "V" -> Label (i 1)
@@ -156,9 +175,11 @@ let run_case (line : string) : string =
   let conn : (int * (int * int option)) list ref = ref [] in
   let set k v = conn := (k, v) :: Stdlib.List.remove_assoc k !conn in
   let res = ref [] in
-  let emit a b c = res := (a, b, c) :: !res in
+  (* after a request that the code never answers the engine ends the case: the model says `x` from then on *)
+  let ended = ref false in
+  let emit a b c = res := (if !ended then ("x", b, "KV") else (a, b, c)) :: !res in
   (* the pipeline with its script and RIB units (E2eModel), stepped along in a case that uses them *)
-  let est = ref (e_init (script_of startup)) in
+  let est = ref (e_init_v (script_of startup) (n startup_vribs)) in
   let hist1 : RibModel.update list ref = ref [] and hist2 : RibModel.update list ref = ref [] in
   let estep (o : eop) =
     if scripted then begin
@@ -193,6 +214,24 @@ let run_case (line : string) : string =
           else if starts "q:" a then emit a b c else emit "-" "-" "."
       | Query2 toks ->
           ask "p" toks (match !est.es_rib2, !est.es_s2 with Some r, Some sw -> Some (r, sw, !hist2) | _, _ -> None)
+      | QueryV toks ->
+          let i = int_of_string (Stdlib.List.nth toks 1) in
+          let af = int_of_string (Stdlib.List.nth toks 2) and p = int_of_string (Stdlib.List.nth toks 3) in
+          let afn = n af and pfx = Eng_pipe.pid af p in
+          let code = vrib_query_code !est (nat_of_int i) afn pfx in
+          (match code with
+           | VAbsent -> emit "v:-" "v:-" "."
+           | _ ->
+               (* the physical RIB's own answer (model / spec / class as for Q), then the chain *)
+               let (pm, ps, pc) = answer "v" !est.es_w.w_ids !hist1 !est.es_rib.ru_rib !est.es_s afn pfx in
+               let st = if chain_rejects !est.es_vribs (nat_of_int i) pfx then "v:" else ps in
+               (match code with
+                | VNever -> emit "v:STALL" st "KV"; ended := true
+                | _ ->
+                    (* the code answers only when the physical RIB has nothing: pm = "v:" *)
+                    let mt = if pm = "v:" then "v:" else "v:?" in
+                    emit mt st (if mt = st then "." else if pc = "." then "?" else pc)))
+      | Vribs k -> estep (EVribs (n k)); emit "-" "-" "."
       | Script s -> estep (EScript (script_of s)); emit "-" "-" "."
       | Unit2 y -> estep (EUnit (n y)); emit "-" "-" "."
       | Msg (k, toks) ->
